@@ -1125,6 +1125,38 @@ func (h *H) Scenario(name string) (bool, error) {
 			return false, err
 		}
 		h.Receive(t)
+	case "forkrecv":
+		// The node has switched to a fork of the same height and relays a transaction before the wallet has
+		// processed the switch (the guard of proccessReceivedTx compares heights only): t, spending a, is
+		// confirmed for the wallet; the node replaces t's block; u, spending a and b, arrives (for the wallet a
+		// is still spent by the mined t); the wallet processes the switch (t returns to the pending set beside
+		// u); t confirms again: u must vanish and b be free (seed C09f: Rollback overwrote the list of a's
+		// pending spenders, u was never found again).
+		own := h.freeCoins(true)
+		if len(own) < 2 {
+			return false, nil
+		}
+		a, b := own[0], own[1]
+		t := h.buildFrom([]src{a}, 40)
+		h.defineTx(t)
+		if err := h.mineNow([]*wire.MsgTx{t}); err != nil {
+			return false, err
+		}
+		if _, err := h.Detach(); err != nil {
+			return false, err
+		}
+		b2 := h.BuildBlockP(0, nil)
+		if err := h.Attach(b2); err != nil {
+			return false, err
+		}
+		u := h.buildFrom([]src{a, b}, 40)
+		h.defineTx(u)
+		h.Receive(u)
+		h.Process(b2)
+		h.QueryP(false, false)
+		if err := h.mineNow([]*wire.MsgTx{t}); err != nil {
+			return false, err
+		}
 	case "foreign":
 		// an incoming payment is double-spent by its sender in a transaction that does not concern the wallet
 		fr := h.freeCoins(false)
